@@ -144,6 +144,53 @@ def traversals(e):
     return out
 
 
+def subexpressions(e):
+    """every Expression node below e (post-order), through scalar, vector and matrix containers"""
+    from optyx.core.expressions import Expression
+    out, seen = [], set()
+
+    def walk(o):
+        if id(o) in seen:
+            return
+        seen.add(id(o))
+        for attr in ("left", "right", "operand", "vector", "matrix", "expression"):
+            if hasattr(o, attr):
+                walk(getattr(o, attr))
+        ex = getattr(o, "_expressions", None)
+        if ex is not None:
+            for row in ex:
+                for x in (row if isinstance(row, list) else [row]):
+                    walk(x)
+        if isinstance(o, Expression):
+            out.append(o)
+    walk(e)
+    return out
+
+
+def warm_traversals(e):
+    """the same questions asked after every sub-expression was classified on its
+    own (per-node and process-wide degree caches warm)"""
+    import optyx.analysis as A
+    for sub in subexpressions(e)[:-1]:
+        try:
+            sub.degree
+            A.is_linear(sub)
+        except Exception:  # noqa: BLE001
+            pass
+    out = {}
+    for name, fn, conv in (("compute_degree[warm]", lambda: A.compute_degree(e), lambda d: d), ("_compute_degree_impl[warm]", lambda: A._compute_degree_impl(e), lambda d: d),
+                           ("e.degree[warm]", lambda: e.degree, lambda d: d), ("is_linear[warm]", lambda: A.is_linear(e), lambda b: 1 if b else None),
+                           ("is_quadratic[warm]", lambda: A.is_quadratic(e), lambda b: 2 if b else None),
+                           ("_compute_degree_iterative[warm]", lambda: A._compute_degree_iterative(e), lambda d: d)):
+        try:
+            out[name] = conv(fn())
+        except RecursionError:
+            out[name] = None
+        except Exception as ex:  # noqa: BLE001
+            out[name] = ex
+    return out
+
+
 def fd_terms(recipe, names, val, hval, d):
     """reference values f(x + k h), k = 0..d+1, and the domain conditions"""
     vals = []
@@ -176,7 +223,12 @@ def check_recipe(recipe, planted=None):
     hval = {n: SReal.var("h_" + n) for n in names["vars"]}
     hnames = ["h_" + n for n in names["vars"]]
     shp = K.shape(recipe, 3)
-    for dec, labels, pc, trav in K.explore(lambda: traversals(K.build_recipe(recipe, val)[1]), max_paths=50):
+    def both():
+        t = traversals(K.build_recipe(recipe, val)[1])
+        t.update(warm_traversals(K.build_recipe(recipe, val)[1]))   # a fresh tree, inner nodes queried first
+        return t
+
+    for dec, labels, pc, trav in K.explore(both, max_paths=50):
         done = {}
         for name, d in trav.items():
             if planted is not None and name == "compute_degree":
@@ -240,6 +292,7 @@ def replay(payload):
     # the real code must still make the claim
     val = {n: 0.5 for n in allv}
     trav = traversals(K.build_recipe(recipe, val)[1])
+    trav.update(warm_traversals(K.build_recipe(recipe, val)[1]))
     got = trav.get(name)
     if isinstance(got, Exception) or got is None or int(got) != d:
         return False, f"{name} now reports {got!r}, not {d}"
